@@ -72,7 +72,8 @@ def make_case(i, rng, tier):
         if not inp["data"] or len(inp["data"]) > 80:
             return None
         return {"mode": "type", "data": inp["data"].hex(), "root": inp["root"], "cc": inp["cc"], "enc": inp["enc"], "label": inp["label"],
-                "in": rng.choice(("binary", "binary", "hex")), "alias": rng.random() < 0.3, "split": rng.random() < 0.2}
+                "in": rng.choice(("binary", "binary", "hex")), "alias": rng.random() < 0.3, "split": rng.random() < 0.2,
+                "twice": rng.random() < 0.08}        # the same path given twice: the file counts twice
     # convert
     fmt = rng.choice(("binary", "binary", "hex", "swtpm-log", "pcapng", "auto"))
     how = rng.choice(("file", "file", "files", "stdin"))
@@ -126,10 +127,23 @@ def make_case(i, rng, tier):
             cuts = sorted(set(cuts[:1] + [rng.choice(at)]))
         if rng.random() < 0.1 and cuts:
             cuts = sorted(cuts + [cuts[0]])
+    order = None
+    if how == "files" and fmt in ("binary", "hex") and rng.random() < 0.2:
+        # the same path more than once on the command line (a b a): every mention counts.  Cut at a message boundary when
+        # there is one, so that the repeated piece is whole traffic
+        inner = [b for b in bounds[1:-1] if 0 < b < len(data)]
+        b = rng.choice(inner) if inner and rng.random() < 0.8 else rng.randrange(len(data) + 1)
+        if fmt == "binary":
+            cuts = [b]
+        else:
+            first = medium.write_hex(data[:b], rng) + b"\n"
+            blob = first + medium.write_hex(data[b:], rng)
+            cuts = [len(first)]
+        order = rng.choice(([0, 1, 0], [0, 0], [0, 1, 1], [0, 0, 1], [1, 0, 1], [0, 1, 0, 1]))
     return {"mode": "convert", "in": fmt, "out": rng.choice(("pretty", "pretty", "events", "binary")),
             "root": inp["root"], "cc": inp["cc"], "blob": blob.hex(), "how": how, "cuts": cuts, "family": fam,
             "chunks": [rng.choice((1, 2, 5, 16, 4096))], "label": inp["label"], "subprocess": rng.random() < 0.1,
-            "explicit_in": rng.random() < 0.8, "alias": rng.random() < 0.15}
+            "explicit_in": rng.random() < 0.8, "alias": rng.random() < 0.15, "order": order}
 
 
 _NAMES = None
@@ -216,6 +230,14 @@ def _convert(case, res, tmp):
     res.count("out:" + case["out"])
     res.count("how:" + case["how"])
     res.count("family:" + case["family"])
+    pieces = None
+    if case.get("order") and case["how"] == "files" and case["cuts"]:
+        ends = case["cuts"] + [len(blob)]
+        parts = [blob[a:b] for a, b in zip([0] + ends, ends)]
+        pieces = [parts[k] for k in case["order"]]
+        blob = b"".join(pieces)             # what the command line names, mention by mention
+        case = dict(case, blob=blob.hex())
+        res.count("how:files:same-path-repeated")
     try:
         expected = _library_lines(case, blob)
     except Exception as e:
@@ -268,6 +290,12 @@ def _convert(case, res, tmp):
     if case["how"] == "stdin":
         argv.append("-")
         stdin = world.SimFile(blob, case["chunks"])
+    elif pieces is not None:
+        paths = {}
+        for k, part in zip(case["order"], pieces):
+            if k not in paths:
+                paths[k] = _write(tmp, "part%d.bin" % k, part)
+            argv.append(paths[k])
     elif case["how"] == "files" and case["cuts"]:
         prev = 0
         for n, c in enumerate(case["cuts"] + [len(blob)]):
@@ -345,6 +373,10 @@ def _type(case, res, tmp):
         paths = [_write(tmp, "a.bin", blob[:len(blob) // 2]), _write(tmp, "b.bin", blob[len(blob) // 2:])]
     else:
         paths = [_write(tmp, "input.bin", blob)]
+    if case.get("twice"):
+        paths = paths + paths               # every mention of a path counts
+        data = data + data
+        res.count("type:same-path-repeated")
     status, out, err = cli.run_inprocess(["ty" if case.get("alias") else "type", "--in", fmt] + paths)
     label = "type --in %s on %s (%d bytes, %d file(s))" % (fmt, case["label"], len(data), len(paths))
     res.count("type:in:" + fmt)
@@ -378,7 +410,7 @@ def _type(case, res, tmp):
         res.v("C19.d", "C19.d:set", "%s: printed %d names, the library decodes it strictly as %d; missing %s extra %s" % (
             label, len(got), len(exp), missing, extra))
     own = "Response (TPM_CC.%s)" % layout().commands[case["cc"]]["name"] if case["root"] == "Response" else case["root"]
-    if not case.get("enc") and "#" not in own and own not in got and status == 0:
+    if not case.get("enc") and "#" not in own and own not in got and status == 0 and not case.get("twice"):
         res.v("C19.d", "C19.d:own-type", "%s: the type it was generated as (%s) is not listed" % (label, own))
     res.count("type-names-listed", len(got))
     res.nontrivial("type", case["data"])
